@@ -336,6 +336,8 @@ class UnitLib(Lib):
             return AV(num="int", exact=True, idx=base.idx)
         if a == "T" and base.cls == "colarray":
             return AV(num="obj", elts=base.elts, src=base.src)
+        if a == "T" and base.cls == "rowarray" and base.elts is not None:
+            return colarray(*base.elts, src=base.src)
         if a == "shape":
             return AV(num="obj", cls="shape", elem=INT, elts=(
                 AV(num="int", exact=True, kind=fs("nrows")),
@@ -838,6 +840,41 @@ class UnitLib(Lib):
                 return AV(num="obj", cls="indextuple",
                           elts=(container(r, cls="ndarray").with_(idx=r.idx),
                                 container(c, cls="ndarray").with_(idx=c.idx)))
+            if dotted == "numpy.arange" and len(args) == 1 and \
+                    args[0].kind is not None and \
+                    args[0].kind & {"nrows", "ncols"}:
+                ax = "row" if "nrows" in args[0].kind else "col"
+                ix = Idx(ax, 0, "image")
+                return container(AV(num="int", exact=True, idx=ix),
+                                 cls="ndarray").with_(idx=ix)
+            if dotted == "numpy.meshgrid" and len(args) >= 2:
+                # coordinate matrices: the k-th result holds values of the
+                # k-th argument whatever the indexing convention
+                out = []
+                for a in args:
+                    ix = a.idx if isinstance(a.idx, Idx) else (
+                        a.elem.idx if a.elem is not None and
+                        isinstance(a.elem.idx, Idx) else None)
+                    out.append(container(AV(num="int", exact=True, idx=ix),
+                                         cls="ndarray").with_(idx=ix)
+                               if ix is not None else container(INT, cls="ndarray"))
+                return AV(num="obj", cls="indextuple", elts=tuple(out))
+            if dotted in ("numpy.column_stack", "numpy.stack",
+                          "numpy.vstack", "numpy.dstack") and args and \
+                    args[0].elts is not None and len(args[0].elts) == 2:
+                ax = kwargs.get("axis")
+                if dotted == "numpy.column_stack" or (
+                        dotted == "numpy.stack" and ax is not None and
+                        ax.cval in (1, -1)):
+                    return colarray(*[self._col(it, e)
+                                      for e in args[0].elts])
+                if dotted == "numpy.vstack" or (
+                        dotted == "numpy.stack" and
+                        (ax is None or ax.cval == 0)):
+                    # rows; .T / .transpose() turns them into columns
+                    return AV(num="obj", cls="rowarray",
+                              elts=tuple(self._col(it, e)
+                                         for e in args[0].elts))
             if dotted in ("numpy.indices",) and args:
                 r = container(INT, cls="ndarray").with_(
                     idx=Idx("row", 0, "image"))
@@ -863,6 +900,9 @@ class UnitLib(Lib):
                 return self._wcs_call(it, n, a, recv, args, kwargs)
             if a in ("transpose",) and recv.cls == "colarray":
                 return AV(num="obj", elts=recv.elts, src=recv.src)
+            if a == "transpose" and recv.cls == "rowarray" and \
+                    recv.elts is not None and not args:
+                return colarray(*recv.elts, src=recv.src)
             if a == "transpose" and recv.cls == "skypairs":
                 return AV(num="obj", elts=(LON_DEG.with_(src=recv.src),
                                            LAT_DEG.with_(src=recv.src)),
